@@ -178,6 +178,15 @@ func c09SpecialSeq(g *gen.G, which int) *c09Seq {
 		c3 := mk("expr", "c09-guarded-by-swapped-in-import", y, imp(' ', "example.com/new/swaplog"), "swapMark(«y»)", "swapNew(«y»)")
 		return &c09Seq{changes: []*gen.Change{c1, c2, c3}, roles: []string{"swaps-import", "guarded-by-removed-import", "guarded-by-swapped-in-import"}, base: c1,
 			extra: []string{"swapMark(%s)"}, imports: "import (\n\t\"example.com/old/swaplog\"\n\t\"os\"\n)\n\nvar _ = os.Args\n"}
+	case 10:
+		// an earlier change reproduces, through a metavariable, a local variable that is named like an imported package;
+		// a later change removes that import: the copy of the local is still a local, not a reference to the package
+		c1 := mk("expr", "c09-copies-shadowing-local", x, nil, "shadowUse(«x»)", "shadowUsed(«x»)")
+		c2 := mk("expr", "c09-removes-shadowed-import", y, []gen.Line{gen.L('-', `import "example.com/old/swaplog"`), gen.L(' ', "")}, "swaplog.Warn(«y»)", "println(«y»)")
+		return &c09Seq{changes: []*gen.Change{c1, c2}, roles: []string{"copies-shadowing-local", "removes-shadowed-import"}, base: c1,
+			extra:   []string{"swaplog.Warn(%s)"},
+			decls:   []string{"func shadowFn(l *L) {\n\tswaplog := l.With()\n\tshadowUse(swaplog.Name())\n}"},
+			imports: "import (\n\t\"example.com/old/swaplog\"\n\t\"os\"\n)\n\nvar _ = os.Args\n"}
 	default:
 		// a later change is guarded by an import that only an earlier change adds (and by a package clause that only
 		// an earlier change makes true)
@@ -403,6 +412,8 @@ func runC09(ctx *core.Ctx, idx int) *core.Result {
 		seq = c09SpecialSeq(g, 8)
 	case 10:
 		seq = c09SpecialSeq(g, 9)
+	case 16:
+		seq = c09SpecialSeq(g, 10)
 	}
 	// files
 	nf := 3
